@@ -163,6 +163,7 @@ impl Cache {
             proc.state = p.state().into();
             // the env can be changed by the workflow and by scripts after the process is started
             proc.env = p.env().to_string();
+            proc.err = p.err().map(|err| err.to_string());
 
             collection.update(&proc)?;
             self.store.upsert_task(task)?;
